@@ -68,6 +68,7 @@ type LabCase struct {
 	SkipNodes map[string]string // test -> wrapper (applied in the judged run only)
 	SkipAt    map[string]int
 	SkipAfter map[string]bool // test -> its skip wrapper is called after its sub-tests were started
+	Flags     []string        // extra runner flags of the judged process (-test.cpu=1,2 / -test.shuffle=on / -test.parallel=1)
 	Classes   vkit.Classes
 	// judged-run mutations (C20): test -> call index -> changed value / Update option
 	MutVal map[string]map[int]string
@@ -273,6 +274,19 @@ func (l *Lab) Gen(r *rand.Rand, o LabOpts) *LabCase {
 		lc.Count = []int{1, 1, 2, 3, 5}[r.IntN(5)]
 		if lc.Count > 1 {
 			lc.Classes["count>1"] = true
+		}
+	}
+	if o.Counts {
+		switch r.IntN(8) {
+		case 0:
+			lc.Flags = []string{"-test.cpu=1,2"} // every test is executed once per listed GOMAXPROCS value
+			lc.Classes["flag:-cpu=1,2"] = true
+		case 1:
+			lc.Flags = []string{"-test.shuffle=on"}
+			lc.Classes["flag:-shuffle"] = true
+		case 2:
+			lc.Flags = []string{"-test.parallel=1"}
+			lc.Classes["flag:-parallel=1"] = true
 		}
 	}
 	lc.Update = []string{"", "", "clean", "true", "other"}[r.IntN(5)]
